@@ -43,6 +43,11 @@ def check(case):
             if case.get("resolve"):
                 sol = P.solve(method=method)  # the same problem solved again, nothing edited: judged on the second result
                 classes.append("re-solved")
+            if case.get("edit") == "tighten-ub":
+                # orientation flipped by re-installing the SAME objective expression object, then solved again
+                (P.maximize if P.sense == "minimize" else P.minimize)(P.objective)
+                sol = P.solve(method=method)
+                classes.append("flipped-same-object")
         except Exception as ex:
             return Result.discard("method-refuses-model:" + exc_label(ex), classes)
         classes.append("status:" + sol.status.value)
